@@ -1,6 +1,6 @@
 (* Proofs/C11/Sinks.v -- wire.sinks is exactly the list of reader ports of primitive blocks, for every call sequence *)
 From Coq Require Import ZArith List Bool Arith Lia Setoid.
-From V Require Import Model.Build Spec.C11 Proofs.C11.Tbl Proofs.C11.Inv Proofs.C11.SpecRefl.
+From V Require Import Model.Build Spec.C11 Proofs.C11.Tbl Proofs.C11.Inv Proofs.C11.Conflict Proofs.C11.SpecRefl.
 Import ListNotations.
 Local Arguments seq : simpl never.
 Local Arguments filter : simpl never.
@@ -13,8 +13,9 @@ Proof.
   intros s o Hinv HS. unfold exec.
   destruct (i_ports s Hinv) as [P1 _].
   assert (MV : forall w np nn, sinks_exact (fst (move s w np nn))).
-  { intros. unfold move. destruct (negb _); [exact HS|]. destruct (negb _); [exact HS|].
-    destruct (negb _); [exact HS|]. cbn. destruct (tmem _ _); exact HS. }
+  { intros. destruct (move s w np nn) as [s' out] eqn:E. apply move_cases in E.
+    destruct E as [[E _]|[_ [_ E]]]; cbn [fst]; [subst; exact HS|].
+    cbn in E. destruct E as [_ [_ [_ E]]]. subst s'. exact HS. }
   assert (AP : forall k o0 n w0, sinks_exact (fst (add_port s k o0 n w0))).
   { intros k o0 n w0. unfold add_port.
     destruct (negb _); [exact HS|]. destruct (_ && _ && _); [exact HS|].
